@@ -1231,7 +1231,10 @@ def trim_cast_varchar(expression: exp.Expression) -> exp.Expression:
         return expression
 
     return exp.Trim(
-        this=exp.Cast(this=operand, to=exp.DataType(this=exp.DataType.Type.VARCHAR, nested=False, prefix=False))
+        this=exp.Cast(this=operand, to=exp.DataType(this=exp.DataType.Type.VARCHAR, nested=False, prefix=False)),
+        # keep the characters to trim, and the side to trim for LTRIM/RTRIM
+        expression=expression.args.get("expression"),
+        position=expression.args.get("position"),
     )
 
 
